@@ -44,7 +44,7 @@ def run_int(run, fams, rule):
         run.mc(SPECDIR, "IntCtl_MC.tla", "IntCtl_MC.cfg", env={"DEPTH": 6},
                name="closed model: any program of control instructions, requests raised at any time; safety + liveness under weak fairness", heap="24g", timeout=3000)
     files = []
-    for fam in fams:
+    for fam in list(fams) + ["rom"]:
         fs, _ = run.gen("int", fam=fam)
         files += fs
     accepted, ids = run.validate(files, SPECDIR, "Int_Trace.tla", "Int_Trace.cfg", heap="5g")
